@@ -184,6 +184,15 @@ func (p *Package) Clauses() ([]ast.Clause, error) {
 						return nil, err
 					}
 					clause.Premises[i] = ast.NegAtom{Atom: ia}
+				case ast.TemporalLiteral:
+					if inner, ok := a.Literal.(ast.Atom); ok {
+						na, err := p.updatedAtom(inner, definedIdentifier, usedPackages)
+						if err != nil {
+							return nil, err
+						}
+						a.Literal = na
+						clause.Premises[i] = a
+					}
 				default:
 					continue
 				}
